@@ -4,7 +4,7 @@ import Splipy.Lemmas.C17Compose
 ≤ 3, checked by kernel evaluation (`decide +kernel`): the quantifiers range over finite explicit
 lists (`Orientation.all n`, `allSecs n`) which are proved complete in `C17Group`/`C17Compose`. -/
 
-namespace Splipy
+namespace Splipy.MP
 
 /-- what the table states for one orientation and one section -/
 def sectionRow (n : ℕ) (o : Orientation) (sec : Sec) : Bool :=
@@ -38,4 +38,4 @@ theorem sectionTable {n : ℕ} (hn : n ≤ 3) {o : Orientation} (ho : o.WF n) {s
   · exact sectionTable2 o ho' sec hs'
   · exact sectionTable3 o ho' sec hs'
 
-end Splipy
+end Splipy.MP
